@@ -129,6 +129,20 @@ def r1_r2(ctx):
     ctx.require(opens, "socket._connect: no open_connection call")
     ok = any(con.cfg.dominates(con.branch(t, "true").id, opens[0].id) for t in con.tests(lambda e: dotted(e) == "self.is_open"))
     ctx.check(ok, R2, "_connect:refuses-when-closed", m, con.node, "open_connection is dominated by the true branch of `self.is_open`", "_connect does not test is_open: a reset caused by the close itself reconnects afterwards")
+    # a connect that close() cancels schedules nothing: the retry is not placed in a `finally:` (or a BaseException / CancelledError
+    # handler), where it would run while the cancellation unwinds - after close() has taken its snapshot of the tasks to cancel
+    from .common import schedule_calls as _sched
+
+    retry_calls = [c for _, c in _sched(con, "_connect")]
+    in_unwind = []
+    for t_ in ast.walk(con.node):
+        if isinstance(t_, ast.Try):
+            zones = list(t_.finalbody) + [s_ for h_ in t_.handlers if h_.type is None or any(n_ in norm_text(h_.type) for n_ in ("BaseException", "CancelledError")) for s_ in h_.body]
+            for z in zones:
+                for x in ast.walk(z):
+                    if any(x is c for c in retry_calls):
+                        in_unwind.append(x)
+    ctx.check(not in_unwind, R2, "_connect:no-retry-while-unwinding", m, (in_unwind[0] if in_unwind else con.node), "the retry is scheduled on the normal path only (after the try statement), never from a finally block or a cancellation handler", "the retry runs while a cancelled _connect unwinds: close() has already cancelled what it knew, the new task survives shutdown")
     # the in-flight flag must be released when close() cancels a pending connect, or a later init() can never connect
     from . import c07
 
@@ -251,6 +265,17 @@ def r3(ctx):
         ci = m.get_class(clsname)
         stored = _stored_tasks(ctx, modname, clsname)
         allc = [x for fnode in ci.methods.values() for x in walk_no_nested(fnode) if isinstance(x, ast.Call) and (dotted(x.func) or "").endswith("create_task")]
+        # one creation site per stored handle: a second site that overwrites the attribute (e.g. "restart the poll on reconnect")
+        # orphans the task the attribute held - shutdown() cancels only the last one
+        by_attr = {}
+        for q_, storage_, call_ in stored:
+            if not storage_.split(".")[-1].endswith(("tasks", "_tasks")) and not any(x in storage_ for x in ("append", "add")):
+                by_attr.setdefault(storage_, []).append((q_, call_))
+        for storage_, sites in by_attr.items():
+            plain = [sc for sc in sites if True]
+            if storage_.endswith("s"):
+                continue  # a container of handles
+            ctx.check(len(plain) == 1, R, f"{clsname}:one-creation-site({storage_})", m, plain[-1][1], f"{storage_} is given a new task at one place only (the previous task cannot be overwritten while it runs)", f"{len(plain)} sites: " + ", ".join(q for q, _ in plain))
         ctx.check(len(allc) == len(stored), R, f"{clsname}:no-untracked-tasks", m, (allc[0] if allc else ci.node), "every task the class creates is stored so that it can be cancelled", f"{len(allc)} create_task calls, {len(stored)} stored")
     # shutdown of both generations
     for modname, clsname in ((AT4_API, "AirTouch4"), (AT5_API, "AirTouch5")):
